@@ -189,6 +189,10 @@ class RootVisitor(NodeVisitor):
         for child in node.body:
             self.sym_visitor.visit(child)
 
+        # names used by the arguments of the filter
+        if node.filter is not None:
+            self.sym_visitor.visit(node.filter)
+
     def visit_CallBlock(self, node: nodes.CallBlock, **kwargs: t.Any) -> None:
         for child in node.iter_child_nodes(exclude=("call",)):
             self.sym_visitor.visit(child)
